@@ -17,7 +17,7 @@ Local Open Scope N_scope.
    same currencies, same force flag and integer-only flag, memo trimmed,
    same affiliate - except that a split of the default affiliate may come
    back as a split of all affiliates when no transaction names another
-   affiliate; read_index = position. *)
+   affiliate (a split for all affiliates names none); read_index = position. *)
 Theorem C11_roundtrip : forall cw cr, csv_layer_ok cw cr ->
   forall tbl txs, forallb (valid_tx tbl) txs = true ->
   exists txs' tbl2,
@@ -46,48 +46,58 @@ Check C11_roundtrip_cells : forall tbl txs, forallb (valid_tx tbl) txs = true ->
 Print Assumptions C11_roundtrip_cells.
 
 (* ------------------------------------------------------------------ the second generation
-   Full statement: write (read (write txs)) = write txs for every valid list. *)
-Definition C11_idempotent_full : Prop := forall cw cr, csv_layer_ok cw cr ->
+   "Writing the re-read list again yields the same bytes", for EVERY valid
+   list.  (Before the fixes cd7192e - the memo is written trimmed - and
+   96161d9 - a split for all affiliates does not by itself need the affiliate
+   column - this was refuted on two classes, found by the check: a memo with
+   surrounding white space, and a split of the default affiliate in a list
+   naming no other affiliate.  The model follows the fixed code; the two
+   former witnesses are instances now, see C11_former_classes_stable.) *)
+Theorem C11_idempotent : forall cw cr, csv_layer_ok cw cr ->
   forall tbl txs, forallb (valid_tx tbl) txs = true ->
   exists txs' tbl2,
     read cr (snd (write cw tbl txs)) (fst (write cw tbl txs)) = Ok (txs', tbl2)
     /\ fst (write cw tbl2 txs') = fst (write cw tbl txs).
+Proof. exact idempotent_bytes. Qed.
+Check C11_idempotent : forall cw cr, csv_layer_ok cw cr ->
+  forall tbl txs, forallb (valid_tx tbl) txs = true ->
+  exists txs' tbl2,
+    read cr (snd (write cw tbl txs)) (fst (write cw tbl txs)) = Ok (txs', tbl2)
+    /\ fst (write cw tbl2 txs') = fst (write cw tbl txs).
+Print Assumptions C11_idempotent.
 
-(* It does not hold of the code: two executable classes of lists re-read
-   correctly but re-written to different cells (hence different bytes under
-   any csv layer, which is injective on tables).  The witnesses are replayed
-   on the implementation by the check. *)
-Theorem C11_idempotent_refuted :
-  exists tbl txs, forallb (valid_tx tbl) txs = true /\ second_differs tbl txs.
-Proof.
-  exists wit_tbl, [wit_buy [32; 120]].
-  exact (conj (proj1 memo_witness) (proj2 (proj2 (proj2 memo_witness)))).
-Qed.
-Check C11_idempotent_refuted :
-  exists tbl txs, forallb (valid_tx tbl) txs = true /\ second_differs tbl txs.
-Print Assumptions C11_idempotent_refuted.
+Theorem C11_idempotent_cells : forall tbl txs, forallb (valid_tx tbl) txs = true ->
+  exists txs' tbl2,
+    read_table (snd (write_table tbl txs)) (fst (fst (write_table tbl txs))) (snd (fst (write_table tbl txs)))
+    = Ok (txs', tbl2)
+    /\ fst (write_table tbl2 txs') = fst (write_table tbl txs).
+Proof. exact table_idempotent. Qed.
+Check C11_idempotent_cells : forall tbl txs, forallb (valid_tx tbl) txs = true ->
+  exists txs' tbl2,
+    read_table (snd (write_table tbl txs)) (fst (fst (write_table tbl txs))) (snd (fst (write_table tbl txs)))
+    = Ok (txs', tbl2)
+    /\ fst (write_table tbl2 txs') = fst (write_table tbl txs).
+Print Assumptions C11_idempotent_cells.
 
-Theorem C11_K_memo_untrimmed_witness :
-  forallb (valid_tx wit_tbl) [wit_buy [32; 120]] = true
-  /\ K_memo_untrimmed [wit_buy [32; 120]] = true /\ K_default_split [wit_buy [32; 120]] = false
-  /\ second_differs wit_tbl [wit_buy [32; 120]].
-Proof. exact memo_witness. Qed.
-Check C11_K_memo_untrimmed_witness :
-  forallb (valid_tx wit_tbl) [wit_buy [32; 120]] = true
-  /\ K_memo_untrimmed [wit_buy [32; 120]] = true /\ K_default_split [wit_buy [32; 120]] = false
-  /\ second_differs wit_tbl [wit_buy [32; 120]].
-Print Assumptions C11_K_memo_untrimmed_witness.
-
-Theorem C11_K_default_split_witness :
-  forallb (valid_tx wit_tbl) [wit_split] = true
-  /\ K_memo_untrimmed [wit_split] = false /\ K_default_split [wit_split] = true
-  /\ second_differs wit_tbl [wit_split].
-Proof. exact split_witness. Qed.
-Check C11_K_default_split_witness :
-  forallb (valid_tx wit_tbl) [wit_split] = true
-  /\ K_memo_untrimmed [wit_split] = false /\ K_default_split [wit_split] = true
-  /\ second_differs wit_tbl [wit_split].
-Print Assumptions C11_K_default_split_witness.
+(* the witnesses of the two former classes: a purchase with memo " x", and a
+   2-for-1 split of the default affiliate alone (which is read back as a split
+   of all affiliates): both are re-written to the same cells *)
+Theorem C11_former_classes_stable :
+  forallb (valid_tx wit_tbl) [wit_buy [32; 120]] = true /\ second_same wit_tbl [wit_buy [32; 120]]
+  /\ forallb (valid_tx wit_tbl) [wit_split] = true /\ second_same wit_tbl [wit_split]
+  /\ map (fun t => aff_is_global (x_af t))
+         (match read_table (snd (write_table wit_tbl [wit_split])) (fst (fst (write_table wit_tbl [wit_split])))
+                           (snd (fst (write_table wit_tbl [wit_split]))) with
+          | Ok (txs', _) => txs' | _ => [] end) = [true].
+Proof. exact former_witnesses_stable. Qed.
+Check C11_former_classes_stable :
+  forallb (valid_tx wit_tbl) [wit_buy [32; 120]] = true /\ second_same wit_tbl [wit_buy [32; 120]]
+  /\ forallb (valid_tx wit_tbl) [wit_split] = true /\ second_same wit_tbl [wit_split]
+  /\ map (fun t => aff_is_global (x_af t))
+         (match read_table (snd (write_table wit_tbl [wit_split])) (fst (fst (write_table wit_tbl [wit_split])))
+                           (snd (fst (write_table wit_tbl [wit_split]))) with
+          | Ok (txs', _) => txs' | _ => [] end) = [true].
+Print Assumptions C11_former_classes_stable.
 
 (* the writer is injective on tables: different cells give different bytes *)
 Theorem C11_different_cells_different_bytes : forall cw cr, csv_layer_ok cw cr ->
@@ -102,37 +112,6 @@ Check C11_different_cells_different_bytes : forall cw cr, csv_layer_ok cw cr ->
     h2 <> [] -> Forall (fun r => length r = length h2) r2 ->
     cw (h1 :: r1) = cw (h2 :: r2) -> h1 :: r1 = h2 :: r2.
 Print Assumptions C11_different_cells_different_bytes.
-
-(* Outside the two classes the full statement holds, for all lists. *)
-Theorem C11_idempotent : forall cw cr, csv_layer_ok cw cr ->
-  forall tbl txs, forallb (valid_tx tbl) txs = true ->
-  K_memo_untrimmed txs = false -> K_default_split txs = false ->
-  exists txs' tbl2,
-    read cr (snd (write cw tbl txs)) (fst (write cw tbl txs)) = Ok (txs', tbl2)
-    /\ fst (write cw tbl2 txs') = fst (write cw tbl txs).
-Proof. exact idempotent_bytes. Qed.
-Check C11_idempotent : forall cw cr, csv_layer_ok cw cr ->
-  forall tbl txs, forallb (valid_tx tbl) txs = true ->
-  K_memo_untrimmed txs = false -> K_default_split txs = false ->
-  exists txs' tbl2,
-    read cr (snd (write cw tbl txs)) (fst (write cw tbl txs)) = Ok (txs', tbl2)
-    /\ fst (write cw tbl2 txs') = fst (write cw tbl txs).
-Print Assumptions C11_idempotent.
-
-Theorem C11_idempotent_cells : forall tbl txs, forallb (valid_tx tbl) txs = true ->
-  K_memo_untrimmed txs = false -> K_default_split txs = false ->
-  exists txs' tbl2,
-    read_table (snd (write_table tbl txs)) (fst (fst (write_table tbl txs))) (snd (fst (write_table tbl txs)))
-    = Ok (txs', tbl2)
-    /\ fst (write_table tbl2 txs') = fst (write_table tbl txs).
-Proof. exact table_idempotent. Qed.
-Check C11_idempotent_cells : forall tbl txs, forallb (valid_tx tbl) txs = true ->
-  K_memo_untrimmed txs = false -> K_default_split txs = false ->
-  exists txs' tbl2,
-    read_table (snd (write_table tbl txs)) (fst (fst (write_table tbl txs))) (snd (fst (write_table tbl txs)))
-    = Ok (txs', tbl2)
-    /\ fst (write_table tbl2 txs') = fst (write_table tbl txs).
-Print Assumptions C11_idempotent_cells.
 
 (* ------------------------------------------------------------------ field codecs *)
 (* to_string_min_precision k keeps every significant digit: Decimal::from_str
@@ -180,6 +159,13 @@ Check C11_currency_roundtrip : forall c, valid_cur c = true ->
   currency_new c = c /\ trim c = c /\ is_nil c = false.
 Print Assumptions C11_currency_roundtrip.
 
+(* the memo: str::trim is idempotent on any bytes, so the trimmed memo that is
+   written is read back as itself *)
+Theorem C11_memo_trim_idempotent : forall s, trim (trim s) = trim s.
+Proof. exact trim_idem. Qed.
+Check C11_memo_trim_idempotent : forall s, trim (trim s) = trim s.
+Print Assumptions C11_memo_trim_idempotent.
+
 (* Affiliate::from_strep (name a) = a, for every affiliate made from ASCII
    text, including every placement and spelling of the marker "(R)" *)
 Theorem C11_affiliate_roundtrip : forall s, is_ascii s = true ->
@@ -225,8 +211,9 @@ Print Assumptions C11_ratio_roundtrip.
 (* the csv-layer hypothesis has a model, and a 4-row list (USD purchase with a
    29-digit price, a sale with a forced superficial loss and a separate
    commission currency, a reverse split allowing fractions for a registered
-   affiliate, a cost-base adjustment) is valid, is read back as the same
-   transactions and re-written to the same bytes *)
+   affiliate, a cost-base adjustment; one memo with surrounding
+   white space) is valid, is read back as the same transactions and re-written
+   to the same bytes *)
 Definition ex_tbl : aftable := snd (intern (snd (intern [] [])) [83; 112; 32; 40; 82; 41]).
 Definition ex_sp : affdata := from_strep_data [83; 112; 32; 40; 82; 41].
 Definition ex_date m d : date := {| dt_y := 2024; dt_m := m; dt_d := d |}.
@@ -238,7 +225,7 @@ Definition ex_txs : list ctx := [
   {| x_sec := [70; 79; 79]; x_td := ex_date 3 1; x_sd := ex_date 3 4;
      x_act := XSell (mk_dec false 5 0) (mk_dec false 12 1) (mk_dec false 0 0) car_default (Some ex_usd)
                     (Some {| sf_val := mk_dec true 1050 3; sf_force := true |});
-     x_memo := []; x_af := from_strep_data []; x_ri := 5 |};
+     x_memo := [32; 120; 32]; x_af := from_strep_data []; x_ri := 5 |};
   {| x_sec := [70; 79; 79]; x_td := ex_date 4 1; x_sd := ex_date 4 1;
      x_act := XSplit {| r_post := mk_dec false 1 0; r_pre := mk_dec false 20 1; r_rio := false |};
      x_memo := []; x_af := ex_sp; x_ri := 0 |};
@@ -249,13 +236,11 @@ Definition ex_txs : list ctx := [
 Example C11_nonvacuous :
   csv_layer_ok toy_cw toy_cr
   /\ forallb (valid_tx ex_tbl) ex_txs = true
-  /\ K_memo_untrimmed ex_txs = false /\ K_default_split ex_txs = false
   /\ (exists txs' tbl2,
         read toy_cr (snd (write toy_cw ex_tbl ex_txs)) (fst (write toy_cw ex_tbl ex_txs)) = Ok (txs', tbl2)
         /\ map x_ri txs' = [0; 1; 2; 3] /\ map x_af txs' = map x_af ex_txs
         /\ fst (write toy_cw tbl2 txs') = fst (write toy_cw ex_tbl ex_txs)).
 Proof.
   split; [exact toy_layer_ok|]. split; [vm_compute; reflexivity|].
-  split; [vm_compute; reflexivity|]. split; [vm_compute; reflexivity|].
   eexists. eexists. split; [vm_compute; reflexivity|]. vm_compute. repeat split.
 Qed.
